@@ -353,6 +353,11 @@ class CTMCCredit(CTMCGrid):
         pivot_position = 4
         if any(axis[pivot_position] != 0 for axis in axes):
             raise ValueError("CTMCCredit grid error: pivot position")
+        if any(np.any(np.diff(axis) <= 0) for axis in axes):
+            raise ValueError(
+                "CTMCCredit grid error: the levels must lie strictly between the left truncation and -h "
+                "(and their mirror images below the right truncation for a symmetric grid)"
+            )
 
         super().__init__(h=h, origin_coordinate=pivot_position, axes=axes)
 
